@@ -5,18 +5,18 @@ import "github.com/crillab/gophersat/zzvp"
 // vpSkeletons: variable positions of clause sets rich in binary clauses; the
 // sign of every literal is symbolic.
 var vpSkeletons = [][][]int{
-	{{1, 2}, {1, 3}, {2, 3}},                                   // 0 triangle
-	{{1, 2}, {1, 3}, {1, 4}, {2, 3}, {2, 4}, {3, 4}},           // 1 K4
-	{{1, 2}, {1, 3}, {1, 4}, {2, 3}, {2, 4}},                   // 2 K4 minus an edge
-	{{2, 4}, {1, 2}, {1, 3}, {1, 4}, {2, 3}},                   // 3 K4 minus an edge, other order
-	{{1, 2}, {1, 3}, {2, 3}, {2, 4}, {3, 4}},                   // 4 two triangles sharing an edge
-	{{1, 2}, {1, 3}, {2, 3}, {1, 2}},                           // 5 triangle + repeated binary clause
-	{{1, 2}, {1, 3}, {2, 3}, {3, 4}, {1, 2, 3}},                // 6 triangle + pendant + ternary clause
-	{{1, 2, 3}, {1, 2}, {1, 3}, {2, 3}, {4, 5}},                // 7 clique preceded and followed by unrelated clauses
-	{{1, 2}, {1, 3}, {2, 3}, {4, 5}, {4, 6}, {5, 6}},           // 8 two disjoint triangles
-	{{1, 2}, {3, 4}, {1, 3}, {2, 3}, {1, 4}},                   // 9 incomplete clique, interleaved order
-	{{1, 2}, {1, 3}},                                           // 10 star (no clique)
-	{{4, 5}, {1, 2}, {1, 3}, {2, 3}, {1, 2, 3, 4}, {5, 6}},     // 11 clique in the middle
+	{{1, 2}, {1, 3}, {2, 3}},                               // 0 triangle
+	{{1, 2}, {1, 3}, {1, 4}, {2, 3}, {2, 4}, {3, 4}},       // 1 K4
+	{{1, 2}, {1, 3}, {1, 4}, {2, 3}, {2, 4}},               // 2 K4 minus an edge
+	{{2, 4}, {1, 2}, {1, 3}, {1, 4}, {2, 3}},               // 3 K4 minus an edge, other order
+	{{1, 2}, {1, 3}, {2, 3}, {2, 4}, {3, 4}},               // 4 two triangles sharing an edge
+	{{1, 2}, {1, 3}, {2, 3}, {1, 2}},                       // 5 triangle + repeated binary clause
+	{{1, 2}, {1, 3}, {2, 3}, {3, 4}, {1, 2, 3}},            // 6 triangle + pendant + ternary clause
+	{{1, 2, 3}, {1, 2}, {1, 3}, {2, 3}, {4, 5}},            // 7 clique preceded and followed by unrelated clauses
+	{{1, 2}, {1, 3}, {2, 3}, {4, 5}, {4, 6}, {5, 6}},       // 8 two disjoint triangles
+	{{1, 2}, {3, 4}, {1, 3}, {2, 3}, {1, 4}},               // 9 incomplete clique, interleaved order
+	{{1, 2}, {1, 3}},                                       // 10 star (no clique)
+	{{4, 5}, {1, 2}, {1, 3}, {2, 3}, {1, 2, 3, 4}, {5, 6}}, // 11 clique in the middle
 }
 
 // VP_C15_amo_equiv: DetectAtMostOne keeps the set of models (for every assignment).
